@@ -57,6 +57,9 @@ def BASE : Nat := 100000000
 /-- one event; returns the new state and the printed outcome (if any) -/
 def step (cfg : Cfg) (st : St) (ev : String) : Option (St × Option String) :=
   match ev.splitOn ":" with
+  | "R" :: _ :: _ :: _ :: _ :: _ :: _ :: ["rr"] =>
+    -- a reversed range: `sanitize_request` fails, the reply is the 416 page, nothing is looked up, computed or stored
+    pure (st, some "416#?")
   | "R" :: t :: m :: p :: q :: ims :: variant => do
     let now := BASE + (← t.toNat?)
     let pi ← p.toNat?
